@@ -4,7 +4,7 @@ import re, json
 def rows_for(root):
     rows=[]
     for l in open(f'{root}/results.txt'):
-        m=re.match(r'(C\d\d-[mnkj]\d): (.*)',l.strip())
+        m=re.match(r'(C\d\d-[a-z]\d): (.*)',l.strip())
         if not m: continue
         sid,res=m.groups()
         meta=json.load(open(f'{root}/{sid}/meta.json'))
@@ -27,13 +27,14 @@ def table(rows):
     return "\n".join(out)
 r1,r2,r3=rows_for('/verif/seeded'),rows_for('/verif/seeded2'),rows_for('/verif/seeded3')
 r4=rows_for('/verif/seeded4')
+r5=rows_for('/verif/seeded5')
 c=lambda r: sum(1 for x in r if x[2]=='caught')
 ob=lambda r: [x[0] for x in r if x[2]=='caught' and x[3].startswith('obligation')]
 bd=lambda r: [x[0] for x in r if x[2]=='caught' and x[3].startswith('bounded')]
 text=f'''
 ### 9.6 Seeded property-breaking changes
 
-Four batches of changes were written by independent sub-agents that saw only the property text and a scratch
+Five batches of changes were written by independent sub-agents that saw only the property text and a scratch
 worktree (never /verif); each compiles, keeps the whole existing test suite green, and comes with a demo test
 on the public API that fails with the change and passes without it.
 
@@ -65,6 +66,20 @@ on the public API that fails with the change and passes without it.
   text elements" (C15), contracts tying the three embed extractors to the allow-list host test (C19), and a third
   round of generator dimensions (media blocks with fallback text, cell content shapes, order of meta tags, markup of
   the repeated title, pager containers, frame attributes other than src).
+* **Batch 5** (`/verif/seeded5/<id>-h1/`, 20 changes, other kinds of mistakes: refactors that drop a special case,
+  sampled inputs, swallowed errors, Unicode case folding, shared state) had a **first-run rate of 12 of 20** (C04, C05,
+  C07, C08, C10, C12, C13, C18, C19, C20 by named obligations; C14, C17 by harness cases; a 13th "catch", C01, was an
+  artefact of a spec-file edit that had renamed an open obligation and is not counted). Answers to the 8 misses, all by
+  contracts except two: the element gate may skip an inline element only for a listed reason (C03) and keeps the name of
+  a nestable element between visit and exit, with the same promise verified for all four embed extractors (C01, C07);
+  getDocumentTitle's result by cases over the shape of the title (C15); the word counter is the one that belongs to the
+  text of the whole document (C09); ApplyForReader distils `parsedDoc(r)` of the reader it is given (C11);
+  case-insensitive comparison means equality of the lower-cased strings (C16); the IE Reading View parser got a complete
+  functional contract with its lazy-cache invariant (C14: caught before by a harness case only); figure-credit and
+  anchor-as-block-root shapes were added to the excerpt and URL generators (C02, C06: the deductive part does not reach
+  attribute rewriting of cloned subtrees, see §9.3), and an "element zoo" (every HTML element name nested in itself, four
+  contexts) to the totality harness. The C03 contract work showed that the unchanged tree itself cuts paragraphs at
+  MediaWiki edit-section links (recorded as a known finding, §9.4).
 * The harness extensions of all rounds exposed 17 more genuine defects and 5 known findings on the unchanged
   tree (§9.4) — including one (`Figure.GenerateOutput` with a hidden caption) that an earlier fix of this very
   effort had introduced and that the contract on the renderers caught.
@@ -91,10 +106,14 @@ Batch 4 (after strengthening): {c(r4)} of 20 reported.
 
 {table(r4)}
 
-Caught by a named contract/engine obligation: {len(ob(r1))} in batch 1, {len(ob(r2))} in batch 2 ({", ".join(x.split("-")[0] for x in ob(r2))}), {len(ob(r3))} in batch 3 ({", ".join(x.split("-")[0] for x in ob(r3))}), {len(ob(r4))} in batch 4 ({", ".join(x.split("-")[0] for x in ob(r4))}); only by a bounded harness case: {len(bd(r1))}, {len(bd(r2))} ({", ".join(x.split("-")[0] for x in bd(r2))}), {len(bd(r3))} ({", ".join(x.split("-")[0] for x in bd(r3))}) and {len(bd(r4))} ({", ".join(x.split("-")[0] for x in bd(r4))}). This split, and the first-run numbers above (9/20, 11/20, 14/20), are the honest measure of how far the contracts reach and how well the harnesses generalise: string/regexp rewriting loops, the renderers' text, TreeClone, markup value handling and the pagination *heuristics* (as opposed to their index safety) are defended by enumeration only, and an enumeration only sees the dimensions somebody thought of.
+Batch 5 (after strengthening): {c(r5)} of 20 reported.
+
+{table(r5)}
+
+Caught by a named contract/engine obligation: {len(ob(r1))} in batch 1, {len(ob(r2))} in batch 2 ({", ".join(x.split("-")[0] for x in ob(r2))}), {len(ob(r3))} in batch 3 ({", ".join(x.split("-")[0] for x in ob(r3))}), {len(ob(r4))} in batch 4 ({", ".join(x.split("-")[0] for x in ob(r4))}), {len(ob(r5))} in batch 5 ({", ".join(x.split("-")[0] for x in ob(r5))}); only by a bounded harness case: {len(bd(r1))}, {len(bd(r2))} ({", ".join(x.split("-")[0] for x in bd(r2))}), {len(bd(r3))} ({", ".join(x.split("-")[0] for x in bd(r3))}) {len(bd(r4))} ({", ".join(x.split("-")[0] for x in bd(r4))}) and {len(bd(r5))} ({", ".join(x.split("-")[0] for x in bd(r5))}). This split, and the first-run numbers above (9/20, 11/20, 14/20, 12/20), are the honest measure of how far the contracts reach and how well the harnesses generalise: string/regexp rewriting loops, the renderers' text, TreeClone, markup value handling and the pagination *heuristics* (as opposed to their index safety) are defended by enumeration only, and an enumeration only sees the dimensions somebody thought of.
 '''
 d=open('/verif/DESIGN.md').read()
 i=d.index('\n### 9.6 Seeded property-breaking changes'); j=d.index('\n### 9.8 Data-structure invariants')
 d=d[:i]+text.rstrip()+"\n"+d[j:]
 open('/verif/DESIGN.md','w').write(d)
-print(c(r1),c(r2),c(r3),c(r4))
+print(c(r1),c(r2),c(r3),c(r4),c(r5))
